@@ -74,10 +74,18 @@ Definition hello_of (s : service) : service :=
 Definition with_iid (iid : Z) (s : service) : service :=
   mkService (s_epr s) (s_types s) (s_scopes s) (s_xaddrs s) (s_mdv s) iid.
 
+(* what makes an announcement (Hello / ProbeMatches / ResolveMatches) "acted on": the instance id the handler works
+   with.  AppSequence present: its InstanceId, whatever its value (0 is a legal xs:unsignedInt; MessageNumber and
+   SequenceId are not read).  AppSequence absent: 0 when the module option allow_missing_app_sequence is on, otherwise
+   the message is ignored. *)
+Definition eff_iid (allow : bool) (a : option Z) : option Z :=
+  match a with Some i => Some i | None => if allow then Some 0 else None end.
+
 Section Handle.
   Variable M : mconsts.
   Variable fixed : bool.
   Variable split : bytes -> sres.
+  Variable allow : bool.                 (* wsdimpl.allow_missing_app_sequence *)
 
   (* per ProbeMatch: add, then ask for the missing parts *)
   Fixpoint probe_matches (t : table) (iid : Z) (ms : list service) : table * list out :=
@@ -96,27 +104,35 @@ Section Handle.
      _run_q_read, whatever the handler changed before stays *)
   Definition handle (d : dstate) (m : msg) : dstate * list out :=
     match m with
-    | MHello None _ => (d, [])                                   (* no AppSequence: ignored *)
-    | MHello (Some iid) s =>
-        (mkD (add_remote (remote d) (with_iid iid s)) (local d),
-         match s_xaddrs s with [] => [OResolve (s_epr s)] | _ => [] end)
+    | MHello a s =>
+        match eff_iid allow a with
+        | None => (d, [])                                        (* no AppSequence, option off: ignored *)
+        | Some iid =>
+            (mkD (add_remote (remote d) (with_iid iid s)) (local d),
+             match s_xaddrs s with [] => [OResolve (s_epr s)] | _ => [] end)
+        end
     | MBye epr _ => (mkD (t_del epr (remote d)) (local d), [])          (* whatever else the Bye carries *)
     | MProbe types scopes =>
         match filter_services M fixed split (t_values (local d)) types scopes with
         | Raise => (d, [])
         | Ret l => (d, map OProbeMatch l)
         end
-    | MProbeMatches None _ => (d, [])
-    | MProbeMatches (Some iid) ms =>
-        let '(t, os) := probe_matches (remote d) iid ms in (mkD t (local d), os)
+    | MProbeMatches a ms =>
+        match eff_iid allow a with
+        | None => (d, [])
+        | Some iid => let '(t, os) := probe_matches (remote d) iid ms in (mkD t (local d), os)
+        end
     | MResolve epr =>
         match t_get epr (local d) with
         | Some s => (d, [OResolveMatch s])
         | None => (d, [])
         end
-    | MResolveMatches None _ => (d, [])
-    | MResolveMatches (Some iid) None => (d, [])                 (* AttributeError, caught *)
-    | MResolveMatches (Some iid) (Some s) => (mkD (add_remote (remote d) (with_iid iid s)) (local d), [])
+    | MResolveMatches a m =>
+        match eff_iid allow a, m with
+        | None, _ => (d, [])
+        | Some iid, None => (d, [])                              (* AttributeError, caught *)
+        | Some iid, Some s => (mkD (add_remote (remote d) (with_iid iid s)) (local d), [])
+        end
     | MOther => (d, [])
     end.
 
